@@ -530,6 +530,8 @@ func C12(ctx *core.Ctx) {
 		ctx.Check(ok, "C12.R5", ssax.Name(pm)+" › output buffer bounded by the client limit", fnPos(r, pm), "NewTMemoryOutputBuffer(client.limit)", "requests are encoded into a buffer that is not bounded by the client's limit")
 	}
 	// ---- R10: a rejected append leaves the buffer reset ------------------------------------
+	ctx.Rule("C12.R12", "after an oversize failure the server keeps working and in-limit messages are never rejected: every server entry point encodes each reply into a buffer allocated for that message (never a pooled one that may still hold a refused reply)", 2)
+	perMessageTransports(ctx, r, "C12.R12")
 	ctx.Rule("C12.R11", "an oversize reply does not wedge the server: the processor's write mutex is released on every exit, also after the too-large conversion", 4)
 	lockBalance(ctx, r, "C12.R11", "FBaseProcessor", "FBaseProcessorFunction")
 	ctx.Rule("C12.R10", "a rejected append resets the bounded buffer: every too-large return of its methods is preceded by Reset (the error reply is written into the same buffer)", 1)
@@ -567,6 +569,75 @@ func C12(ctx *core.Ctx) {
 					ctx.Violate("C12.R10", construct, r.IPos(ret), "the append is rejected but the buffer keeps what was written so far: the RESPONSE_TOO_LARGE exception the server writes next lands behind the half-written reply and the client decodes garbage instead of the too-large error", ssax.PathString(r.V.Fset, bad)...)
 				}
 			}
+		}
+	}
+	// ---- R13: the bounded buffer refuses for size only -------------------------------------
+	// After a rejected append the server writes its RESPONSE_TOO_LARGE exception
+	// into the same buffer: an error the appending methods make up themselves
+	// (built here, or kept in a field) must sit below a guard that reads the
+	// limit — never below a remembered state ("already overflowed") that would
+	// refuse the error reply too. Errors handed on from the embedded buffer or a
+	// sibling method are theirs.
+	ctx.Rule("C12.R13", "the bounded buffer refuses an append for its size only: every error its appending methods originate is returned below a guard on the limit", 1)
+	{
+		n := 0
+		for _, fn := range declared {
+			for ret, vs := range ReturnedValues(fn) {
+				if len(vs) == 0 || nilErrorReturn(ret) {
+					continue
+				}
+				ev := ssax.Strip(ResolveLocal(vs[len(vs)-1]))
+				if !isErrorType(vs[len(vs)-1].Type()) {
+					continue
+				}
+				if e, isE := ev.(*ssa.Extract); isE {
+					if _, isCall := e.Tuple.(*ssa.Call); isCall {
+						continue // handed on
+					}
+				}
+				if c, isCall := ev.(*ssa.Call); isCall {
+					if cc2, _ := ssax.AsCall(c); cc2.Static == nil || cc2.Static.Pkg == r.Pkg && cc2.Static.Signature.Recv() != nil || (cc2.Static.Pkg != nil && cc2.Static.Pkg != r.Pkg && !strings.Contains(cc2.FullName(), "NewT")) {
+						continue // result of a sibling / embedded / library call: handed on
+					}
+				}
+				n++
+				under := false
+				for b := ret.Block(); b != nil && b.Idom() != nil; b = b.Idom() {
+					d := b.Idom()
+					iff, isIf := d.Instrs[len(d.Instrs)-1].(*ssa.If)
+					if !isIf {
+						continue
+					}
+					usesLimit := false
+					var walk func(v ssa.Value, depth int)
+					walk = func(v ssa.Value, depth int) {
+						if depth > 6 || usesLimit {
+							return
+						}
+						if ld, isLd := v.(*ssa.UnOp); isLd && ld.Op == token.MUL && fieldNameOfAddr(ld.X) == "limit" {
+							usesLimit = true
+							return
+						}
+						if in, isIn := v.(ssa.Instruction); isIn {
+							for _, op := range in.Operands(nil) {
+								if *op != nil {
+									walk(*op, depth+1)
+								}
+							}
+						}
+					}
+					walk(iff.Cond, 0)
+					// short-circuit `limit > 0 && …`: the second test's block is dominated by the first
+					if usesLimit {
+						under = true
+					}
+				}
+				ctx.Check(under, "C12.R13", ssax.Name(fn)+sprintf(" › error return #%d is a size rejection", n), r.IPos(ret), "below a guard that reads the limit",
+					"the method returns an error of its own ("+ev.String()+") that no size guard decides — e.g. a remembered overflow: after one oversize reply every further write is refused, including the RESPONSE_TOO_LARGE exception the server writes next, so nothing is published and the caller times out instead of learning that the response was too large")
+			}
+		}
+		if n == 0 {
+			ctx.Unresolved("C12.R13", "bounded buffer", "no originated error return found in the appending methods")
 		}
 	}
 	if rs := r.Fn("C12.R5", "(*TMemoryOutputBuffer).Reset"); rs != nil && guardedWrite != nil {
